@@ -262,3 +262,103 @@ Proof.
   - intros kv Hkv. rewrite Forall_forall in Hs1. by apply Hs1.
   - apply unroll_closed_lint_clean; try done. apply Hnm.
 Qed.
+
+(* ---------- sequential_unroll returns (given that the stripping does) ---------- *)
+Lemma so_fold_total (m : iomap) (key : string → string) afo (l : list string) : ∀ g,
+  (∀ b, b ∈ l → ∃ lst, m !! key b = Some lst ∧ ∀ x, x ∈ lst → x ∈ dom g) →
+  ∃ g', foldl (λ st b, match st with
+                       | (g, Done) => match m !! key b with Some l => set_output_g g l afo | None => (g, Fail KeyError) end
+                       | _ => st end) (g, Done) l = (g', Done) ∧ dom g' = dom g.
+Proof.
+  induction l as [|b l IH]; intros g H; simpl; [eauto|].
+  destruct (H b) as (lst & Hm & Hd); [by left|]. rewrite Hm.
+  destruct (set_output_total g lst afo Hd) as [g1 E1]. rewrite E1.
+  assert (Hdom : dom g1 = dom g).
+  { pose proof (set_output_done _ _ _ _ E1) as [Hl _]. apply set_eq. intros x. rewrite !elem_of_dom, Hl. destruct (decide _); [|done]. by rewrite fmap_is_Some. }
+  destruct (IH g1) as (g' & E & Hd'); [|exists g'; split; [done|congruence]].
+  intros b' Hb'. destruct (H b') as (lst' & Hm' & Hd''); [by right|]. exists lst'. split; [done|]. intros x Hx. rewrite Hdom. by apply Hd''.
+Qed.
+Lemma st_fold_total (ts : list (string * gtype)) : ∀ g,
+  (∀ xt, xt ∈ ts → xt.1 ∈ dom g ∧ xt.2 ∈ addable_types) →
+  ∃ g', foldl (λ st xt, match st with (g, Done) => set_type_g g [xt.1] xt.2 | _ => st end) (g, Done) ts = (g', Done).
+Proof.
+  induction ts as [|xt ts IH]; intros g H; simpl; [eauto|].
+  destruct (H xt) as [Hd Ht]; [by left|].
+  destruct (set_type_total g [xt.1] xt.2 Ht) as [g1 E1]; [by intros x ->%elem_of_list_singleton|]. rewrite E1.
+  apply IH. intros xt' Hxt'. destruct (H xt') as [Hd' Ht']; [by right|]. split; [|done].
+  pose proof (set_type_done _ _ _ _ E1) as [Hl _]. apply elem_of_dom. rewrite Hl. apply elem_of_dom in Hd' as [i Hi]. rewrite Hi. destruct (decide _); simpl; eauto.
+Qed.
+Lemma targets_total {A} (m : iomap) (key : A → string) (val : A → gtype) (L : list A) :
+  (∀ a, a ∈ L → ∃ x, lookup0 m (key a) = Ok x) →
+  ∃ ts, foldr (λ a acc, rbind (lookup0 m (key a)) (λ x, rmap (cons (x, val a)) acc)) (Ok []) L = Ok ts ∧
+        ∀ xt, xt ∈ ts → ∃ a, a ∈ L ∧ lookup0 m (key a) = Ok xt.1 ∧ xt.2 = val a.
+Proof.
+  induction L as [|a L IH]; intros H; simpl; [exists []; split; [done|set_solver]|].
+  destruct (H a) as [x Hx]; [by left|]. destruct IH as (ts & E & Hts); [intros; apply H; by right|].
+  rewrite Hx, E. simpl. exists ((x, val a) :: ts). split; [done|].
+  intros xt [->|Hin]%elem_of_cons; [exists a; split; [by left|done]|].
+  destruct (Hts xt Hin) as (a' & Ha' & ?). exists a'. split; [by right|done].
+Qed.
+
+Definition iv_addable (iv : init_vals) : Prop :=
+  match iv with IvNone => True | IvAll t => t ∈ addable_types | IvDict l => ∀ kt, kt ∈ l → kt.2 ∈ addable_types end.
+
+Theorem seq_total C n d q ign afo iv ru prefix CS sio :
+  seq_stripped C d q ign ru = Ok (CS, sio) →
+  lint_clean CS → c_bbs CS = ∅ → plain (c_g CS) → valid_names (c_g CS) → 1 ≤ n →
+  sio_ok (c_g CS) sio → unroll_names_ok (c_g CS) n sio prefix → iv_ok C iv → iv_addable iv →
+  ∃ U m, sequential_unroll C n d q ign afo iv ru prefix = Ok (U, m).
+Proof.
+  intros Hstrip Hl Hb Hplain Hvalid Hn Hsio Hnm Hiv Hadd.
+  pose proof (seq_stripped_sio _ _ _ _ _ _ _ Hstrip) as Esio.
+  destruct (unroll_total CS n sio prefix Hl Hb Hplain Hvalid Hn Hsio Hnm) as (U0 & m0 & HU).
+  destruct Hsio as (Hs1 & Hs2 & Hs3). rewrite Forall_forall in Hs1.
+  destruct (unroll_closed_form CS n sio prefix U0 m0 (lint_clean_inputs_undriven9 CS Hl)) as [-> ->]; try done; [intros kv Hkv; by apply Hs1|].
+  unfold sequential_unroll. rewrite Hstrip. simpl. rewrite HU. simpl.
+  set (cs := c_g CS) in *. set (G := unroll_closed cs n sio prefix). set (M := unroll_iomap cs n prefix).
+  set (insts := elements (dom (c_bbs C))) in *.
+  assert (Hio_d : ∀ b, b ∈ insts → pre b d ∈ io_of cs ∧ pre b q ∈ io_of cs).
+  { intros b Hb'. assert ((pre b d, pre b q) ∈ sio) as Hin by (rewrite Esio; apply elem_of_list_fmap; eauto).
+    destruct (Hs1 _ Hin) as [H1 H2]. unfold io_of. simpl in *. set_solver. }
+  assert (Hkeydom : ∀ io t, io ∈ io_of cs → t < n → io_name io prefix t ∈ dom G).
+  { intros io t Hio Ht. apply elem_of_dom. exists (io_node cs sio prefix t io). unfold G, unroll_closed.
+    apply elem_of_list_to_map; [apply Hnm|]. by apply in_io_node. }
+  destruct (so_fold_total M (λ b, pre b d) afo insts G) as (g4 & E4 & Hd4).
+  { intros b Hb'. destruct (Hio_d b Hb') as [Hd' _]. eexists. split; [unfold M; rewrite unroll_iomap_full, decide_True by done; done|].
+    intros x (t & -> & Ht%elem_of_seq)%elem_of_list_fmap. apply Hkeydom; [done|lia]. }
+  rewrite E4.
+  assert (Hl0 : ∀ k, k ∈ io_of cs → lookup0 M k = Ok (io_name k prefix 0)).
+  { intros k Hk. unfold lookup0, M. rewrite unroll_iomap_full, decide_True by done. destruct n as [|n']; [lia|]. done. }
+  assert (Hts : ∃ ts, (match iv with
+            | IvNone => Ok []
+            | IvAll t => foldr (λ b acc, rbind (lookup0 M (pre b q)) (λ x, rmap (cons (x, t)) acc)) (Ok []) insts
+            | IvDict l => foldr (λ kt acc, rbind (lookup0 M (pre kt.1 q)) (λ x, rmap (cons (x, kt.2)) acc)) (Ok []) l
+            end) = Ok ts ∧ ∀ xt, xt ∈ ts → xt.1 ∈ dom g4 ∧ xt.2 ∈ addable_types).
+  { destruct iv as [|t|l].
+    - exists []. split; [done|set_solver].
+    - destruct (targets_total M (λ b, pre b q) (λ _, t) insts) as (ts & E & Hts); [intros b Hb'; eexists; apply Hl0, Hio_d; done|].
+      exists ts. split; [done|]. intros xt Hxt. destruct (Hts xt Hxt) as (b & Hb' & Hlk & ->). split; [|done].
+      rewrite (Hl0 _ (proj2 (Hio_d b Hb'))) in Hlk. injection Hlk as <-. rewrite Hd4. apply Hkeydom; [by apply Hio_d|lia].
+    - assert (Hkt : ∀ kt, kt ∈ l → kt.1 ∈ insts) by (intros kt Hkt; apply elem_of_elements; by apply Hiv).
+      destruct (targets_total M (λ kt : string * gtype, pre kt.1 q) (λ kt, kt.2) l) as (ts & E & Hts); [intros kt Hkt'; eexists; apply Hl0, Hio_d, Hkt; done|].
+      exists ts. split; [done|]. intros xt Hxt. destruct (Hts xt Hxt) as (kt & Hkt' & Hlk & ->). split; [|by apply Hadd].
+      rewrite (Hl0 _ (proj2 (Hio_d _ (Hkt kt Hkt')))) in Hlk. injection Hlk as <-. rewrite Hd4. apply Hkeydom; [by apply Hio_d, Hkt|lia]. }
+  destruct Hts as (ts & Ets & Hts). rewrite Ets. simpl.
+  destruct (st_fold_total ts g4 Hts) as [g5 E5]. rewrite E5. eauto.
+Qed.
+
+Theorem seq_correct C n d q ign afo iv ru prefix CS sio :
+  seq_stripped C d q ign ru = Ok (CS, sio) →
+  lint_clean CS → c_bbs CS = ∅ → closed (c_g CS) → acyclic (c_g CS) → plain (c_g CS) → valid_names (c_g CS) → free_are_inputs (c_g CS) →
+  1 ≤ n → sio_ok (c_g CS) sio → unroll_names_ok (c_g CS) n sio prefix → iv_ok C iv → iv_addable iv →
+  ∃ U m, sequential_unroll C n d q ign afo iv ru prefix = Ok (U, m) ∧ dom m = io_of (c_g CS) ∧
+    ∀ w, consistent (c_g U) w →
+      let st := λ v, w (io_name v prefix 0) in
+      let ins := λ t i, w (io_name i prefix t) in
+      ∀ o t, o ∈ io_of (c_g CS) → t < n →
+        m !! o ≫= (.!! t) = Some (io_name o prefix t) ∧ w (io_name o prefix t) = run (c_g CS) sio t st ins o.
+Proof.
+  intros Hstrip Hl Hb Hcl Hac Hplain Hvalid Hfr Hn Hsio Hnm Hiv Hadd.
+  destruct (seq_total C n d q ign afo iv ru prefix CS sio Hstrip Hl Hb Hplain Hvalid Hn Hsio Hnm Hiv Hadd) as (U & m & HU).
+  exists U, m. split; [done|]. by apply (seq_spec C n d q ign afo iv ru prefix U m CS sio).
+Qed.
